@@ -292,10 +292,16 @@ func (ls *List) Filter(ctx context.Context, fn Object) Object {
 	filterArgs := make([]Object, 1)
 	var result []Object
 	for _, value := range ls.items {
-		filterArgs[0] = value
-		decision, err := callFunc(ctx, fn.(*Function), filterArgs)
-		if err != nil {
-			return Errorf(err.Error())
+		var decision Object
+		if builtin, ok := fn.(*Builtin); ok {
+			decision = builtin.fn(ctx, value)
+		} else {
+			filterArgs[0] = value
+			var err error
+			decision, err = callFunc(ctx, fn.(*Function), filterArgs)
+			if err != nil {
+				return Errorf(err.Error())
+			}
 		}
 		if IsError(decision) {
 			return decision
@@ -320,10 +326,16 @@ func (ls *List) Each(ctx context.Context, fn Object) Object {
 	}
 	eachArgs := make([]Object, 1)
 	for _, value := range ls.items {
-		eachArgs[0] = value
-		result, err := callFunc(ctx, fn.(*Function), eachArgs)
-		if err != nil {
-			return Errorf(err.Error())
+		var result Object
+		if builtin, ok := fn.(*Builtin); ok {
+			result = builtin.fn(ctx, value)
+		} else {
+			eachArgs[0] = value
+			var err error
+			result, err = callFunc(ctx, fn.(*Function), eachArgs)
+			if err != nil {
+				return Errorf(err.Error())
+			}
 		}
 		if IsError(result) {
 			return result
